@@ -116,20 +116,27 @@ Definition unconstrained_bound (infos : list tokinfo) (lines : list lline) (indw
   let lvs := mk_lviews infos lines in
   file_IB lvs * indw + file_CB lvs * contw + file_m lvs * list_max (span_list lvs 0).
 
-Theorem run_bounds_file W infos lines : parents_ok lines = true ->
+(* (stated with views_wf, which only needs every parent to be an EARLIER line: FormatTotalProofs.mk_lviews_wf_weak; parents_ok, which also
+   asks for the parent token to be in the parent line, fails on the lines the wrapper gets once a parent line is voided) *)
+Theorem run_bounds_file_wf W infos lines : views_wf (mk_lviews infos lines) ->
   let lvs := mk_lviews infos lines in
   run_bounds W lvs (file_m lvs) (file_SW lvs) (file_LV lvs) (file_IB lvs) (file_CB lvs) (file_span lvs).
 Proof.
-  intros Hp lvs. constructor.
+  intros Hwf lvs. constructor.
   - intros i lv r Hi Hr. apply nth_error_In in Hi. repeat split.
     + apply list_max_in. apply in_flat_map. exists lv. split; [exact Hi|]. apply in_flat_map. exists r. split; [exact Hr|left; reflexivity].
     + intros x Hx. apply list_max_in. apply in_flat_map. exists lv. split; [exact Hi|]. apply in_flat_map. exists r. split; [exact Hr|right; left; rewrite Hx; reflexivity].
     + apply list_max_in. apply in_flat_map. exists lv. split; [exact Hi|]. exact (in_map (fun r0 => stack_weight (tr_stk r0)) _ _ Hr).
   - intros i lv Hi. apply nth_error_In in Hi. apply list_max_in. apply in_map. exact Hi.
-  - intros i lv Hi. apply span_list_ok; [exact (mk_lviews_wf infos lines Hp)|exact Hi].
-  - exact (mk_lviews_wf infos lines Hp).
+  - intros i lv Hi. apply span_list_ok; [exact Hwf|exact Hi].
+  - exact Hwf.
   - exact (mk_lviews_fun infos lines).
 Qed.
+
+Corollary run_bounds_file W infos lines : parents_ok lines = true ->
+  let lvs := mk_lviews infos lines in
+  run_bounds W lvs (file_m lvs) (file_SW lvs) (file_LV lvs) (file_IB lvs) (file_CB lvs) (file_span lvs).
+Proof. intros Hp. apply run_bounds_file_wf, mk_lviews_wf, Hp. Qed.
 
 (* the top-level calls of a phase satisfy the precondition of solve_unc *)
 Lemma cpre_top W infos lines i lv fd :
@@ -165,7 +172,7 @@ Hypothesis Hiter : w_iter WA = w_iter WB.
 Hypothesis Hbbb : w_bbb WA = w_bbb WB.
 Variable infos : list tokinfo.
 Variable lines : list lline.
-Hypothesis Hp : parents_ok lines = true.
+Hypothesis Hwf : views_wf (mk_lviews infos lines).
 Hypothesis HbA : unconstrained_bound infos lines (w_indw WA) (w_contw WA) <= w_max WA.
 Hypothesis HbB : unconstrained_bound infos lines (w_indw WB) (w_contw WB) <= w_max WB.
 
@@ -197,7 +204,7 @@ Proof.
   assert (Hfd : fd_sim fd fd) by (subst fd; destruct (lv_gtoks lv) as [|g ?]; [exact I|destruct (g =? 0); [reflexivity|exact I]]).
   pose proof (mk_lviews_length infos lines) as Hlen. fold lvs in Hlen.
   destruct (solve_width_independent WA WB lvs lvs fm _ _ _ _ _ _ _ _ _ _ _ _ Hiter Hbbb (mk_lviews_view_sim infos infos lines eq_refl)
-              (run_bounds_file WA infos lines Hp) (run_bounds_file WB infos lines Hp)
+              (run_bounds_file_wf WA infos lines Hwf) (run_bounds_file_wf WB infos lines Hwf)
               i lv lv (S (length lines)) stA stB (lv_level lv, 0) fd fd Hi Hi ltac:(rewrite Hlen; lia) Hfd HsA HcA HsB HcB
               (cpre_top WA infos lines i lv fd Hi Hoff HbA) (cpre_top WB infos lines i lv fd Hi Hoff HbB)) as (E & S1 & C1 & S2 & C2).
   pose proof (state_inv_solve (fun st' => Dlog st' = Dlog stA) (fun st0 l o H => H) (fun st0 k v H => H) (fun st0 H => H) WA lvs fm (S (length lines)) stA lv (lv_level lv, 0) fd eq_refl) as DA.
@@ -240,8 +247,8 @@ Proof. rewrite !plan_of_log, wrap_phase1_indep. reflexivity. Qed.
 End Phase.
 
 (* OptimisingLineFormatter::format without the string stage: the final token vector (counters included) is the same *)
-Theorem olf_model_phase1_indep rsA rsB WA WB lines l :
-  w_iter WA = w_iter WB -> w_bbb WA = w_bbb WB -> parents_ok lines = true ->
+Theorem olf_model_phase1_indep_wf rsA rsB WA WB lines l :
+  w_iter WA = w_iter WB -> w_bbb WA = w_bbb WB -> views_wf (mk_lviews (map tokinfo_of l) lines) ->
   unconstrained_bound (map tokinfo_of l) lines (w_indw WA) (w_contw WA) <= w_max WA ->
   unconstrained_bound (map tokinfo_of l) lines (w_indw WB) (w_contw WB) <= w_max WB ->
   fst (fst (olf_model rsA WA false lines l)) = fst (fst (olf_model rsB WB false lines l))
@@ -254,6 +261,14 @@ Proof.
     fold (Dlog (wrap_phase1 WA (map tokinfo_of l) lines)). fold (Dlog (wrap_phase1 WB (map tokinfo_of l) lines)).
     rewrite (wrap_phase1_indep WA WB H1 H2 _ lines Hp HA HB). reflexivity.
 Qed.
+
+Corollary olf_model_phase1_indep rsA rsB WA WB lines l :
+  w_iter WA = w_iter WB -> w_bbb WA = w_bbb WB -> parents_ok lines = true ->
+  unconstrained_bound (map tokinfo_of l) lines (w_indw WA) (w_contw WA) <= w_max WA ->
+  unconstrained_bound (map tokinfo_of l) lines (w_indw WB) (w_contw WB) <= w_max WB ->
+  fst (fst (olf_model rsA WA false lines l)) = fst (fst (olf_model rsB WB false lines l))
+  /\ map ev_erase (filter is_D (snd (fst (olf_model rsA WA false lines l)))) = map ev_erase (filter is_D (snd (fst (olf_model rsB WB false lines l)))).
+Proof. intros H1 H2 Hp. apply olf_model_phase1_indep_wf; [exact H1|exact H2|apply mk_lviews_wf, Hp]. Qed.
 
 Print Assumptions olf_model_phase1_indep.
 
@@ -331,8 +346,8 @@ Proof.
 Qed.
 
 (* C10 at the level the reconstructor consumes, both phases, for files without multi-line strings *)
-Corollary olf_model_indep_no_ml rsA rsB WA WB lines l :
-  w_iter WA = w_iter WB -> w_bbb WA = w_bbb WB -> parents_ok lines = true -> no_ml l ->
+Corollary olf_model_indep_no_ml_wf rsA rsB WA WB lines l :
+  w_iter WA = w_iter WB -> w_bbb WA = w_bbb WB -> views_wf (mk_lviews (map tokinfo_of l) lines) -> no_ml l ->
   unconstrained_bound (map tokinfo_of l) lines (w_indw WA) (w_contw WA) <= w_max WA ->
   unconstrained_bound (map tokinfo_of l) lines (w_indw WB) (w_contw WB) <= w_max WB ->
   fst (fst (olf_model rsA WA true lines l)) = fst (fst (olf_model rsB WB true lines l))
@@ -340,8 +355,16 @@ Corollary olf_model_indep_no_ml rsA rsB WA WB lines l :
 Proof.
   intros H1 H2 Hp Hn HA HB.
   destruct (olf_model_no_ml rsA WA lines l Hn) as (A1 & A2 & _). destruct (olf_model_no_ml rsB WB lines l Hn) as (B1 & B2 & _).
-  destruct (olf_model_phase1_indep rsA rsB WA WB lines l H1 H2 Hp HA HB) as (E1 & E2).
+  destruct (olf_model_phase1_indep_wf rsA rsB WA WB lines l H1 H2 Hp HA HB) as (E1 & E2).
   rewrite A1, B1, A2, B2, !filter_app. cbn [filter is_D]. rewrite !app_nil_r. split; [exact E1|exact E2].
 Qed.
+
+Corollary olf_model_indep_no_ml rsA rsB WA WB lines l :
+  w_iter WA = w_iter WB -> w_bbb WA = w_bbb WB -> parents_ok lines = true -> no_ml l ->
+  unconstrained_bound (map tokinfo_of l) lines (w_indw WA) (w_contw WA) <= w_max WA ->
+  unconstrained_bound (map tokinfo_of l) lines (w_indw WB) (w_contw WB) <= w_max WB ->
+  fst (fst (olf_model rsA WA true lines l)) = fst (fst (olf_model rsB WB true lines l))
+  /\ map ev_erase (filter is_D (snd (fst (olf_model rsA WA true lines l)))) = map ev_erase (filter is_D (snd (fst (olf_model rsB WB true lines l)))).
+Proof. intros H1 H2 Hp. apply olf_model_indep_no_ml_wf; [exact H1|exact H2|apply mk_lviews_wf, Hp]. Qed.
 
 Print Assumptions olf_model_indep_no_ml.
